@@ -19,13 +19,13 @@ add("C05", "exploration", "runtime monitoring: differential lock-step execution 
     "Trusts the 60-line dictionary model and type-aware equality in vf/domain.py; says nothing about histories not generated.", "DESIGN.md §4 C05")
 
 add("C06", "exploration", "runtime monitoring: class invariant and LRU/eviction rules evaluated on the live MemoryCache after every operation of an exhaustive (to state closure) operation enumeration, plus audit-hook watch of file opens",
-    "The invariant (usage = sum of resident sizes <= budget, no oversize resident, queue = table, recency order, no needless or out-of-order eviction, stale value never served) is evaluated on the real cache object after every transition of a BFS that reaches closure of the abstract state space for three budgets, and after every step of random back-end histories ending in random forget-everything sequences.",
+    "The invariant (usage = sum of resident sizes <= budget, no oversize resident, queue = table, recency order, no needless or out-of-order eviction, stale value never served) is evaluated on the real cache object after every transition of a BFS that reaches closure of the abstract state space (queue order, sizes, table order, weak-reference table, recency ranks) for three budgets and for string, array and mixed value kinds, and after every step of random back-end histories ending in random forget-everything sequences.",
     "Sizes are the code's own estimates; recency is judged with touch intervals so that implementation choices (is_memoized refreshes, memento look-up does not) are not flagged; the BFS de-duplicates by abstract state.", "DESIGN.md §4 C06")
 add("C07", "exploration", "runtime monitoring: after every step a separate cache-less backend re-reads and re-hashes every live memento against a shadow table of the bytes at creation",
-    "Integrity invariant checked over the whole store after every step of thousands of histories with shared override keys, None and partition results; held = no live memento ever changed, every c/<h> object hashed to h, equal bytes shared one version.",
+    "Integrity invariant checked over the whole store after every step of thousands of histories with shared override keys, None and partition results, writes cut short by a kernel-level file size limit, and writers forked from a process that had opened the store; held = no live memento ever changed, every c/<h> object hashed to h, equal bytes shared one version.",
     "Trusts sha256 and the shadow table; the file-level scan is layout dependent and only secondary.", "DESIGN.md §4 C07")
 add("C19", "exploration", "runtime monitoring: tree snapshot diff + audit-hook (and strace in the thorough tier) observation of every operation through read-only / null back-ends",
-    "Random storage histories and function-level call sequences against pre-populated stores re-opened read-only in 12 variants; every outcome is compared with the frozen dictionary, the storage trees are compared byte-for-byte (incl. mtimes) and mutating audit events / system calls are looked for.",
+    "Random storage histories and function-level call sequences against pre-populated stores (intact, or left with dangling / empty links by an interrupted writer) re-opened read-only in 12 variants, null storage, and the null runner on intact and damaged stores; every outcome is compared with the frozen dictionary, the storage trees are compared byte-for-byte (incl. mtimes) and mutating audit events / system calls are looked for.",
     "Access times are ignored; audit-hook coverage is CPython's, strace covers the rest in the thorough tier.", "DESIGN.md §4 C19")
 
 add("C02", "exploration", "runtime monitoring: execution recorder (body counts) + type-aware equality of every returned value + replayed exception class/message + recorded result type, across back-ends and modifiers",
@@ -50,7 +50,7 @@ add("C16", "exploration", "runtime monitoring: recorder of parameters seen by bo
     "Effective-context closed form in vf.trees.simulate (inherit unless the edge attaches its own, which replaces entirely).", "DESIGN.md §4 C16")
 
 add("C15", "exploration", "runtime monitoring: slot-by-slot comparison of call_batch / map_over_range with individual calls on a twin store, store-state comparison, recorder body counts",
-    "Batches with duplicates, failing and not-to-be-memoized elements, random pre-memoized subsets, both raise_first_exception settings, four presentations and three store kinds; each batch is mirrored by individual calls on a twin store.",
+    "Batches with duplicates, typed twins (1 / 1.0 / True), failing and not-to-be-memoized elements, ranges given as sequences, views and one-shot iterators, random pre-memoized subsets, both raise_first_exception settings, four presentations and three store kinds; each batch is mirrored by individual calls on a twin store.",
     "Failures compare by class and message prefix; stored exceptions by recorded class name and message.", "DESIGN.md §4 C15")
 add("C18", "exploration", "runtime monitoring: behaviour vectors (tree snapshots + audit hook + call outcomes) of configured back-ends and clusters compared with constructor-argument equivalents over the full option matrix",
     "Every option combination x five source forms (inline dict, cluster config, JSON file, YAML jinja template, nested relative files) is built and its behaviour observed; explicit-argument overrides, all repository orders with duplicated names, histories of look-ups interleaved with repositories added later (live environment and its rebuilt dump), and environment dumps are checked the same way.",
@@ -68,7 +68,7 @@ add("C03", "exploration", "runtime monitoring: version maps reported by real int
     "Every generated program (all contain set and tuple constants, nested code and cross-module references; many span two packages and __init__.py) is imported by 8 (quick) / 24 (thorough) real interpreters; all version maps must be identical; a second interpreter with another hash seed and other orders must execute no body at all on the first one's store.",
     "Each interpreter is a fresh /venv/bin/python process; PYTHONHASHSEED values are a sample.", "DESIGN.md §4 C03")
 add("C13", "exploration", "runtime monitoring: version() of every registered function after every prefix of an in-process event sequence, compared with the versions a pristine forked child computes from the identical compilation units of the resulting program",
-    "Event sequences mixing redefinitions (also of unchanged definitions), events that nobody follows with a query, rebinding/mutation of variables, alias re-binding, late-defined symbols, memento/plain switches, modifier clones and unregistered wrappers, with interleaved subset queries; after every event the running process's versions are compared with a from-scratch computation in a fresh child.",
+    "Event sequences mixing redefinitions (also of unchanged definitions), events that nobody follows with a query, rebinding/mutation of variables, alias re-binding, late-defined symbols, memento/plain switches, modifier clones and unregistered wrappers, with interleaved subset queries, plus templated scenarios that re-bind a helper to functions of another module; after every event the running process's versions are compared with a from-scratch computation in a fresh child.",
     "The oracle child executes the base files with superseded definitions cut out plus the surviving cells (same pseudo-filenames), i.e. the code's own from-scratch computation; clones/wrappers are judged only at creation.", "DESIGN.md §4 C13")
 
 add("C14", "exploration", "runtime monitoring: reported transitive/direct dependency sets and dependency-graph edges of every memento function in exhaustively enumerated reference graphs (one pristine child each), and outcomes of hidden dynamic calls, against graph reachability",
@@ -80,7 +80,7 @@ add("C08", "fault_enumeration", "runtime monitoring under fault injection: audit
     "Crash = os._exit at the failpoint; faults hit mutating operations only; durability of completed writes is left to the file system; CPython audit events enumerate the operations.", "DESIGN.md §4 C08")
 
 add("C09", "exploration", "runtime monitoring under schedule control: a baton scheduler over sys.monitoring (LINE events in runner and cache code, function-entry events elsewhere, scheduler-aware locks) drives 2-3 real threads through systematically enumerated one-preemption schedules and random / PCT schedules; results, escaping errors, body counts, deadlocks, cache accounts and call stacks are checked per run",
-    "Per scenario and store/cache state every schedule with one preemption (every yield point of the unpreempted run) is executed, plus random and priority-based schedules (thorough: every starting thread, sampled two-preemption schedules, storage_filesystem at line granularity); each run is compared with sequential executions of the same thread bodies. Evidence reports distinct switch traces.",
+    "Per scenario (incl. the same call through modifier clones, and a caller whose batch element another thread computes) and store/cache state (filesystem cold / warm / warm cache, in-heap backend) every schedule with one preemption (every yield point of the unpreempted run) is executed, plus random and priority-based schedules (thorough: every starting thread, sampled two-preemption schedules, storage_filesystem at line granularity); each run is compared with sequential executions of the same thread bodies (values, body counts, cache accounts, recorded provenance). Evidence reports distinct switch traces.",
     "Only locks created through the re-bound factories (RLock / Lock names of runner_local and storage_base) and module-level lock objects of these modules are visible to the scheduler; anything else blocking shows as a watchdog time-out = inconclusive. Line-granularity preemption is finer than what one CPython build does.", "DESIGN.md §4 C09")
 
 NOT_BUILT = "check not built yet in this round (design in DESIGN.md §4); will be claimed once its monitor exists"
